@@ -22,6 +22,14 @@ META = {
 MSGMOD = "autobahn.wamp.message"
 
 
+# (key, other field) pairs where emitting `key` legitimately depends on `other` (confirmed by reading marshal and parse):
+FOREIGN_GUARD_OK = {
+    ("enc_algo", "payload"), ("enc_key", "payload"), ("enc_serializer", "payload"),  # describe the opaque payload; parse reads them only with one
+    ("reason", "registration"), ("registration", "reason"),  # Unregistered: details emitted when either is set (disjunction)
+    ("reason", "subscription"), ("subscription", "reason"),  # Unsubscribed: same
+}
+
+
 def _classes(ctx):
     m = ctx.program.module(MSGMOD)
     base = m.classes["Message"]
@@ -186,6 +194,11 @@ def rule_tables(ctx):
                     ctx.ob(f"{c.name}: key '{k}' is guarded by its own field", bool(set(own) & gattrs),
                            f"'{k}' (from self.{own[0]}) is emitted only when self.{'/'.join(sorted(gattrs))} is set: the field is lost when that other field is absent",
                            wfn.loc(node))
+                foreign = sorted(x for x in gattrs - set(own) if (k, x) not in FOREIGN_GUARD_OK)
+                if own:
+                    ctx.ob(f"{c.name}: key '{k}' does not depend on another field being set", not foreign,
+                           f"'{k}' (from self.{own[0]}) is emitted only under a condition on self.{'/'.join(foreign)}: a message carrying {own[0]} "
+                           f"without {'/'.join(foreign)} comes back without it", wfn.loc(node))
                 for a in own:
                     if ("truth", f"self.{a}", None, True) in facts:
                         adm, t = falsy_admissible(ctx, init, a)
